@@ -915,7 +915,7 @@ type sqlStmt struct {
 	conflict int   // insert: 0 plain (error on conflict), 1 OR REPLACE, 2 OR IGNORE
 	cols     []int // select: result columns; insert: target columns; update: SET columns (1 logID, 2 chkpt, 3 range)
 	lits     []int // insert / update, parallel to cols: 0 = "?" placeholder, 1 = NULL literal
-	conds    []int // WHERE: col*10 + kind (1 "= ?", 2 IS NULL, 3 IS NOT NULL), in source order
+	conds    []int // WHERE: col*10 + kind (1 "= ?", 2 IS NULL, 3 IS NOT NULL, 4 "= ? COLLATE NOCASE"), in source order
 }
 
 func sqlCol(name string) int {
@@ -971,6 +971,8 @@ func parseSQL(q string) sqlStmt {
 			}
 			t = t[1:]
 			switch {
+			case eat("=", "?", "collate", "nocase"):
+				conds = append(conds, c*10+4)
 			case eat("=", "?"):
 				conds = append(conds, c*10+1)
 			case eat("is", "not", "null"):
